@@ -15,6 +15,7 @@ import (
 	"verif.local/harness/ev"
 	"verif.local/harness/gen"
 	"verif.local/harness/svc"
+	"verif.local/harness/wire"
 )
 
 func init() { register("C15", "fault_enumeration", c15) }
@@ -120,6 +121,13 @@ func c15Cases(run *ev.Run) []c15Case {
 				add(h2, p, svc.ServerStream, "partial", "inside-blocked-Receive-draining-oversize", []string{"CALL", "HOOK:R", "R", "CP"}, dl)
 				// ... and when only part of an envelope prefix has arrived
 				add(h2, p, svc.ServerStream, "partial", "inside-blocked-Receive-mid-prefix", []string{"CALL", "R", "HOOK:R", "R", "CP"}, dl)
+				// the same three with a response body that hands the last bytes it
+				// had over together with the error (a buffering decorator in the
+				// HTTP client): Read returns (n > 0, err)
+				add(h2, p, svc.ServerStream, "partial", "inside-blocked-Receive-mid-message-bytes-and-error-together", []string{"CALL", "HOOK:R", "R", "CP"}, dl)
+				add(h2, p, svc.Unary, "partial", "inside-blocked-call-mid-message-bytes-and-error-together", []string{"HOOK:CALL"}, dl)
+				add(h2, p, svc.ServerStream, "partial", "inside-blocked-Receive-draining-oversize-bytes-and-error-together", []string{"CALL", "HOOK:R", "R", "CP"}, dl)
+				add(h2, p, svc.ServerStream, "partial", "inside-blocked-Receive-mid-prefix-bytes-and-error-together", []string{"CALL", "R", "HOOK:R", "R", "CP"}, dl)
 				// the handler's own context ends (server-side timeout / shutdown) while the
 				// client's is alive; the handler returns ctx.Err()
 				add(h2, p, svc.Unary, "server-side", "handler-context-ends", []string{"CALL"}, dl)
@@ -311,6 +319,14 @@ func c15Run(run *ev.Run, srv *svc.Server, c c15Case) {
 			opts = append(opts, connect.WithReadMaxBytes(50)) // the responder declares 100 bytes
 		}
 		cs = srv.Clients(c.http2, opts...)
+		if strings.Contains(c.name, "bytes-and-error-together") {
+			_, base, tapN := srv.HTTPClient(c.http2)
+			tapH := wire.NewTap(tapN.Next)
+			tapH.HoldBack = true
+			cs = svc.NewClientSet(&http.Client{Transport: tapH}, base, opts...)
+			cs.Tap = tapH
+			run.Count("blocked_op.bytes_and_error_together", 1)
+		}
 	}
 	if serverSide {
 		mode := "cancel"
